@@ -3,7 +3,7 @@
 Require Import List NArith Bool Lia ZifyBool ZifyN.
 Import ListNotations.
 Require Import KV.Codec14.Model KV.Codec14.Turtle KV.Codec14.Spec KV.Codec14.StrProofs KV.Codec14.LitProofs
-               KV.Codec14.TokProofs KV.Codec14.NqProofs KV.Codec14.NtProofs KV.Codec14.TtlTokProofs.
+               KV.Codec14.TokProofs KV.Codec14.NqProofs KV.Codec14.NtProofs KV.Codec14.QtProofs KV.Codec14.TtlTokProofs.
 Open Scope N_scope.
 
 Arguments trim : simpl never.
@@ -165,7 +165,7 @@ Inductive ttok : str -> Prop :=
 
 Lemma tt_term_end : forall R v toks, tterm R v -> t_go (tcs toks) R = toks ++ [R].
 Proof.
-  intros R v toks H. destruct H as [s H|v].
+  intros R v toks H. destruct H as [s H|v|a b c H].
   - rewrite <- (app_nil_r (angle s)) at 1. rewrite tt_angle by assumption. cbn. reflexivity.
   - unfold quoted. cbn [app]. erewrite t_go_step by reflexivity. tsimp.
     rewrite <- (app_nil_r (escape v ++ [cDQ])). rewrite <- app_assoc. rewrite tt_lit_body. cbn [app].
@@ -173,6 +173,7 @@ Proof.
     unfold t_push, t_set_lit, t_flush. cbn [t_toks t_cur t_dep t_uri t_lit t_esc negb app].
     change (cDQ :: escape v ++ [cDQ]) with (quoted v). rewrite trim_quoted_nonempty.
     unfold t_emit. cbn [t_toks t_cur]. now rewrite trim_quoted.
+  - rewrite <- (app_nil_r (qrender (QQt a b c))) at 1. rewrite tt_qt_top by assumption. cbn. reflexivity.
 Qed.
 
 Lemma tt_tok_sp : forall x toks rest, ttok x -> t_go (tcs toks) (x ++ cSP :: rest) = t_go (tcs (toks ++ [x])) rest.
@@ -202,7 +203,6 @@ Qed.
 Record tval (R v : str) : Prop := {
   tv_clean : clean_ttl R = v;
   tv_resolve : resolve v = v;
-  tv_noqt : starts_with sLTLT v = false;
   tv_dot : str_eqb R [cDOT] = false;
   tv_semi : str_eqb R [cSEMI] = false;
   tv_comma : str_eqb R [cCOMMA] = false }.
@@ -241,9 +241,9 @@ Proof.
   cbn [find_sub sANN_OPEN starts_with]. rewrite N.eqb_sym, Hc. cbn [andb]. now rewrite (IH Hl).
 Qed.
 
-Lemma tterm_no_marker : forall R v, tterm R v -> no_marker R.
+Lemma tterm_no_marker : forall R v, tterm R v -> starts_with sLTLT v = false -> no_marker R.
 Proof.
-  intros R v [s H|v']; unfold no_marker, ann_searched.
+  intros R v [s H|v'|a b c H] Hq; [| |discriminate]; unfold no_marker, ann_searched.
   - replace (starts_with [cDQ] (angle s)) with false by reflexivity. apply find_sub_none.
     unfold angle. cbn [forallb]. rewrite forallb_app. cbn [forallb].
     replace (negb (cLT =? cLBRACE)) with true by reflexivity. replace (negb (cGT =? cLBRACE)) with true by reflexivity.
@@ -280,16 +280,22 @@ Proof.
     rewrite Habs in H. discriminate.
 Qed.
 
-Lemma tval_tterm : forall R o, tterm R o -> resolve o = o -> starts_with sLTLT o = false -> tval R o.
+Lemma resolve_qt : forall a b c, resolve (qrender (QQt a b c)) = qrender (QQt a b c).
 Proof.
-  intros R o Ht Hr Hq. destruct Ht as [s Hs|v].
+  intros. unfold resolve. destruct (qrender_qt_shape a b c) as (_ & _ & H1 & H2). now rewrite H1, H2.
+Qed.
+
+Lemma tval_tterm : forall R o, tterm R o -> resolve o = o -> tval R o.
+Proof.
+  intros R o Ht Hr. destruct Ht as [s Hs|v|a b c Hs].
   - now apply tval_angle.
   - split; try assumption; try reflexivity. apply clean_ttl_quoted.
+  - split; try assumption; try reflexivity. unfold clean_ttl. now rewrite qrender_trim.
 Qed.
 
 Lemma tval_obj : forall o, wf_obj o = true -> dd_ttl_term o = false -> tval (ttl_obj o) o.
 Proof.
-  intros o H Hd. apply tval_tterm; [now apply ttl_obj_tterm|now apply wf_obj_resolve|now apply wf_obj_not_qt].
+  intros o H Hd. apply tval_tterm; [now apply ttl_obj_tterm|now apply wf_obj_resolve].
 Qed.
 
 (* ================================================================================================================= *)
@@ -302,16 +308,22 @@ Section Machine.
   Definition after_sep (last : bool) (out : list quad) : gst :=
     if last then GS None None [] true false false out None else GS (Some S) None [] false true false out None.
 
-  Lemma g_flush_one : forall P p O o es ep eo out, tval P p -> tval O o -> no_marker O ->
+  (* which triple flush_object stores: verbatim when neither subject nor object is a quoted triple, through
+     encode_term_star otherwise *)
+  Definition flush_ok (p o : str) : Prop :=
+    starts_with sLTLT s || starts_with sLTLT o = false \/ (ets s = s /\ ets p = p /\ ets o = o).
+
+  Lemma g_flush_one : forall P p O o es ep eo out, tval P p -> tval O o -> no_marker O -> flush_ok p o ->
     g_flush (GS (Some S) (Some P) [O] es ep eo out None) = GS (Some S) (Some P) [] es ep eo (out ++ [trip p o]) None.
   Proof.
-    intros P p O o es ep eo out HP HO Ha. unfold g_flush.
+    intros P p O o es ep eo out HP HO Ha Hf. unfold g_flush.
     cbn [g_subj g_pred g_objs g_es g_ep g_eo g_out g_bad is_nil join].
     unfold no_marker in Ha. rewrite Ha. unfold g_emit.
     cbn [g_subj g_pred g_objs g_es g_ep g_eo g_out g_bad map app].
     rewrite (tv_clean _ _ HS), (tv_clean _ _ HP), (tv_clean _ _ HO).
     rewrite (tv_resolve _ _ HS), (tv_resolve _ _ HP), (tv_resolve _ _ HO).
-    rewrite (tv_noqt _ _ HS), (tv_noqt _ _ HO). reflexivity.
+    destruct Hf as [Hf|(E1 & E2 & E3)]; [now rewrite Hf|].
+    rewrite E1, E2, E3. now destruct (starts_with sLTLT s || starts_with sLTLT o).
   Qed.
 
   Lemma g_step_obj : forall P O o eo out, tval O o ->
@@ -326,15 +338,15 @@ Section Machine.
     intros P p eo out HP. unfold g_step. rewrite (tv_dot _ _ HP), (tv_semi _ _ HP), (tv_comma _ _ HP). reflexivity.
   Qed.
 
-  Definition obj_ok (o : str) : Prop := tval (ttl_obj o) o /\ no_marker (ttl_obj o).
+  Definition obj_ok (p o : str) : Prop := tval (ttl_obj o) o /\ no_marker (ttl_obj o) /\ flush_ok p o.
 
   Lemma objs_run : forall (P p : str) (last : bool) (rest : list str), tval P p ->
-    forall r oprev out eo, obj_ok oprev -> (forall o, In o r -> obj_ok o) ->
+    forall r oprev out eo, obj_ok p oprev -> (forall o, In o r -> obj_ok p o) ->
     fold_left g_step (flat_map (fun o' => [[cCOMMA]; ttl_obj o']) r ++ (if last then [cDOT] else [cSEMI]) :: rest)
               (GS (Some S) (Some P) [ttl_obj oprev] false false eo out None)
     = fold_left g_step rest (after_sep last (out ++ map (trip p) (oprev :: r))).
   Proof.
-    intros P p last rest HP. induction r as [|o' r IH]; intros oprev out eo [Hv Ha] Hr.
+    intros P p last rest HP. induction r as [|o' r IH]; intros oprev out eo (Hv & Ha & Hf) Hr.
     - cbn [flat_map app fold_left map]. f_equal.
       destruct last; unfold g_step; cbn [str_eqb N.eqb Pos.eqb andb];
         rewrite (g_flush_one P p _ oprev) by assumption; reflexivity.
@@ -342,9 +354,9 @@ Section Machine.
       assert (H1 : g_step (GS (Some S) (Some P) [ttl_obj oprev] false false eo out None) [cCOMMA]
                    = GS (Some S) (Some P) [] false false true (out ++ [trip p oprev]) None).
       { unfold g_step. cbn [str_eqb N.eqb Pos.eqb andb]. rewrite (g_flush_one P p _ oprev) by assumption. reflexivity. }
-      rewrite H1. destruct (Hr o' (or_introl eq_refl)) as [Hv' Ha'].
+      rewrite H1. destruct (Hr o' (or_introl eq_refl)) as (Hv' & Ha' & Hf').
       rewrite (g_step_obj P _ o') by assumption.
-      rewrite IH; [|split; assumption|intros; apply Hr; now right].
+      rewrite IH; [|split; [assumption|split; assumption]|intros; apply Hr; now right].
       cbn [map]. now rewrite <- app_assoc.
   Qed.
 
@@ -352,7 +364,7 @@ Section Machine.
   Proof. induction r as [|o r IH]; [reflexivity|]. cbn [toks_objs flat_map app]. now rewrite IH. Qed.
 
   Definition pred_ok (pe : str * list str) : Prop :=
-    tval (angle (fst pe)) (fst pe) /\ snd pe <> [] /\ forall o, In o (snd pe) -> obj_ok o.
+    tval (angle (fst pe)) (fst pe) /\ snd pe <> [] /\ forall o, In o (snd pe) -> obj_ok (fst pe) o.
 
   Lemma preds_run : forall ps out eo, ps <> [] -> (forall pe, In pe ps -> pred_ok pe) ->
     fold_left g_step (toks_preds ps) (GS (Some S) None [] false true eo out None)
@@ -373,14 +385,19 @@ Section Machine.
 End Machine.
 
 (* ================================================================================================================= *)
-(* 6. one block, then the document                                                                                      *)
-Definition obj_good (o : str) : Prop := wf_obj o = true /\ dd_ttl_term o = false.
+(* 6. one block, then the document (stated on per-triple facts: covers bare terms and quoted triples alike)            *)
+Definition subj_ok (s : str) : Prop := tterm (nt_subj s) s /\ resolve s = s /\ exists r, nt_subj s = cLT :: r.
+Definition obj_fact (s p o : str) : Prop :=
+  tterm (ttl_obj o) o /\ resolve o = o /\ no_marker (ttl_obj o) /\ flush_ok s p o.
+Definition triple_ok (q : quad) : Prop :=
+  subj_ok (qd_s q) /\ forallb iri_char (qd_p q) = true /\ obj_fact (qd_s q) (qd_p q) (qd_o q).
 Definition entry_good (e : entry) : Prop :=
-  forallb iri_char (fst e) = true /\ snd e <> [] /\
-  forall pe, In pe (snd e) -> forallb iri_char (fst pe) = true /\ snd pe <> [] /\ forall o, In o (snd pe) -> obj_good o.
+  subj_ok (fst e) /\ snd e <> [] /\
+  forall pe, In pe (snd e) -> forallb iri_char (fst pe) = true /\ snd pe <> [] /\
+                              forall o, In o (snd pe) -> obj_fact (fst e) (fst pe) o.
 
 Lemma tterm_rterm : forall R v, tterm R v -> rterm R v.
-Proof. intros R v [s H|v']; [now apply RT_angle|apply RT_lit]. Qed.
+Proof. intros R v [s H|v'|a b c H]; [now apply RT_angle|apply RT_lit|now apply RT_qt]. Qed.
 
 Lemma ttok_shape : forall x, ttok x -> no_lf x = true.
 Proof.
@@ -395,21 +412,21 @@ Proof.
   rewrite !no_lf_app, (ttok_shape x), IH by assumption. reflexivity.
 Qed.
 
-Lemma toks_objs_ttok : forall os j, (forall o, In o os -> obj_good o) -> Forall ttok (toks_objs j os).
+Lemma toks_objs_ttok : forall os j, (forall o, In o os -> tterm (ttl_obj o) o) -> Forall ttok (toks_objs j os).
 Proof.
   induction os as [|o r IH]; intros j H; [constructor|].
   cbn [toks_objs]. apply Forall_app. split; [destruct j; [constructor; [apply TK_comma|constructor]|constructor]|].
   constructor.
-  - destruct (H o (or_introl eq_refl)) as (Hw & _). apply (TK_term _ o). now apply ttl_obj_tterm.
+  - apply (TK_term _ o). apply H. now left.
   - apply IH. intros; apply H; now right.
 Qed.
 
 Lemma toks_preds_ttok : forall ps,
-  (forall pe, In pe ps -> forallb iri_char (fst pe) = true /\ snd pe <> [] /\ forall o, In o (snd pe) -> obj_good o) ->
+  (forall pe, In pe ps -> forallb iri_char (fst pe) = true /\ forall o, In o (snd pe) -> tterm (ttl_obj o) o) ->
   Forall ttok (toks_preds ps).
 Proof.
   induction ps as [|[p os] r IH]; intro H; [constructor|].
-  destruct (H (p, os) (or_introl eq_refl)) as (Hp & _ & Ho). cbn [fst snd] in *.
+  destruct (H (p, os) (or_introl eq_refl)) as (Hp & Ho). cbn [fst snd] in *.
   cbn [toks_preds]. repeat (apply Forall_app; split).
   - constructor; [|constructor]. apply (TK_term _ p). now apply TT_angle.
   - now apply toks_objs_ttok.
@@ -426,43 +443,37 @@ Proof.
     cbn [toks_preds is_nil] in *. rewrite Hl. repeat rewrite <- app_assoc. reflexivity.
 Qed.
 
-Lemma pred_ok_of_good : forall pe,
-  (forallb iri_char (fst pe) = true /\ snd pe <> [] /\ forall o, In o (snd pe) -> obj_good o) -> pred_ok pe.
-Proof.
-  intros pe (H1 & H2 & H3). split; [now apply tval_angle|split; [assumption|]].
-  intros o Ho. destruct (H3 o Ho) as (Hw & Hd). split; [now apply tval_obj|].
-  apply (tterm_no_marker _ o). now apply ttl_obj_tterm.
-Qed.
-
 Lemma entry_line : forall e, entry_good e ->
   ttl_load_line (body_entry e) = TOk (flat_entry e) /\ no_lf (body_entry e) = true.
 Proof.
-  intros [s ps] (Hs & Hne & Hps). cbn [fst snd] in *.
-  destruct (iri_chars_resolve s Hs) as [Hres Hq].
-  pose proof (toks_preds_ttok ps Hps) as Htok.
-  assert (Hbody : body_entry (s, ps) = angle s ++ sp_all (toks_preds ps)).
-  { unfold body_entry, nt_subj. cbn [fst snd]. now rewrite Hq. }
+  intros [s ps] ((HtS & HrS & r0 & HS0) & Hne & Hps). cbn [fst snd] in *.
+  pose proof (tval_tterm _ _ HtS HrS) as HS.
+  assert (Htok : Forall ttok (toks_preds ps)).
+  { apply toks_preds_ttok. intros pe Hpe. destruct (Hps pe Hpe) as (H1 & _ & H3). split; [assumption|].
+    intros o Ho. now destruct (H3 o Ho). }
+  assert (Hbody : body_entry (s, ps) = nt_subj s ++ sp_all (toks_preds ps)) by reflexivity.
   split.
   2:{ rewrite Hbody, no_lf_app, sp_all_no_lf by assumption.
-      destruct (rterm_shape _ _ (RT_angle s Hs)) as (_ & _ & _ & H4 & _). now rewrite H4. }
+      destruct (rterm_shape _ _ (tterm_rterm _ _ HtS)) as (_ & _ & _ & H4 & _). now rewrite H4. }
   unfold ttl_load_line.
   assert (Htrim : trim (body_entry (s, ps)) = body_entry (s, ps)).
   { rewrite Hbody. destruct (toks_preds_last ps Hne) as [l Hl]. rewrite Hl, sp_all_app. cbn [sp_all flat_map app].
-    apply trim_id; [reflexivity|].
+    apply trim_id; [rewrite HS0; reflexivity|].
     rewrite app_assoc. rewrite last_not_app by discriminate. reflexivity. }
   rewrite Htrim, Hbody.
-  replace (is_comment_or_empty (angle s ++ sp_all (toks_preds ps))) with false by reflexivity.
-  replace (starts_with sPREFIX1 (angle s ++ sp_all (toks_preds ps))) with false by reflexivity.
-  replace (starts_with sPREFIX2 (angle s ++ sp_all (toks_preds ps))) with false by reflexivity.
+  replace (is_comment_or_empty (nt_subj s ++ sp_all (toks_preds ps))) with false by (rewrite HS0; reflexivity).
+  replace (starts_with sPREFIX1 (nt_subj s ++ sp_all (toks_preds ps))) with false by (rewrite HS0; reflexivity).
+  replace (starts_with sPREFIX2 (nt_subj s ++ sp_all (toks_preds ps))) with false by (rewrite HS0; reflexivity).
   cbn [orb]. unfold tokenize_ttl. change t_init with (tcs []).
-  rewrite tt_sp_all; [|apply (TK_term _ s); now apply TT_angle|assumption].
+  rewrite tt_sp_all; [|now apply (TK_term _ s)|assumption].
   cbn [app fold_left].
-  pose proof (tval_angle s Hs) as HS.
-  assert (H1 : g_step g_init (angle s) = GS (Some (angle s)) None [] false true false [] None).
+  assert (H1 : g_step g_init (nt_subj s) = GS (Some (nt_subj s)) None [] false true false [] None).
   { unfold g_step, g_init. rewrite (tv_dot _ _ HS), (tv_semi _ _ HS), (tv_comma _ _ HS). reflexivity. }
   rewrite H1.
-  rewrite (preds_run (angle s) s HS ps [] false Hne) by (intros; apply pred_ok_of_good; now apply Hps).
-  cbn [g_flush g_subj g_pred g_bad g_out app]. reflexivity.
+  rewrite (preds_run (nt_subj s) s HS ps [] false Hne).
+  - cbn [g_flush g_subj g_pred g_bad g_out app]. reflexivity.
+  - intros pe Hpe. destruct (Hps pe Hpe) as (Hp & Hos & Hobj). split; [now apply tval_angle|split; [assumption|]].
+    intros o Ho. destruct (Hobj o Ho) as (Ht & Hr & Hm & Hf). split; [now apply tval_tterm|split; assumption].
 Qed.
 
 Lemma flat_map_ext_in : forall {A B} (f g : A -> list B) l, (forall a, In a l -> f a = g a) -> flat_map f l = flat_map g l.
@@ -483,44 +494,111 @@ Proof.
   unfold flat_entry. apply in_flat_map. exists pe. split; [assumption|]. apply in_map_iff. now exists o.
 Qed.
 
-Lemma ttl_roundtrip : forall db, wf_db db = true -> known_ttl db = false ->
-  exists l, load_ttl (gen_ttl db) = TOk l /\ same_set l (default_part db).
+Lemma ttl_roundtrip_gen : forall ts, (forall q, In q ts -> is_default q = true) -> (forall q, In q ts -> triple_ok q) ->
+  exists l, load_ttl (gen_ttl_triples ts) = TOk l /\ same_set l ts.
 Proof.
-  intros db Hwf Hk. set (ts := default_part db). set (g := group ts).
-  assert (Hdef : forall q, In q ts -> is_default q = true).
-  { intros q Hq. unfold ts, default_part in Hq. now apply filter_In in Hq. }
+  intros ts Hdef Hok. set (g := group ts).
   assert (Hflat : forall t, In t (flat_group g) <-> In t ts) by (intro t; now apply group_flat).
-  unfold known_ttl in Hk. rename Hk into Hk1.
-  unfold wf_db in Hwf. rewrite forallb_forall in Hwf.
-  assert (Hq : forall q, In q ts -> wf_quad q = true /\ dd_ttl_term (qd_o q) = false).
-  { intros q Hq. unfold ts, default_part in Hq. apply filter_In in Hq as [Hq Hd]. split; [now apply Hwf|].
-    destruct (dd_ttl_term (qd_o q)) eqn:E; [|reflexivity].
-    assert (known_dd_ttl db = true) by (apply existsb_exists; exists q; now rewrite Hd, E). congruence. }
   assert (Hgood : forall e, In e g -> entry_good e).
   { intros e He. destruct (group_good ts e He) as [Hne Hpe].
-    assert (Hall : forall pe o, In pe (snd e) -> In o (snd pe) ->
-                   wf_quad (fst e, fst pe, o, None) = true /\ dd_ttl_term o = false).
-    { intros pe o H1 H2. apply (Hq (fst e, fst pe, o, None)). apply Hflat. now apply in_flat_group. }
+    assert (Hall : forall pe o, In pe (snd e) -> In o (snd pe) -> triple_ok (fst e, fst pe, o, None)).
+    { intros pe o H1 H2. apply Hok. apply Hflat. now apply in_flat_group. }
     split; [|split; [assumption|]].
     - destruct (snd e) as [|pe ps] eqn:E; [congruence|].
       assert (Hpe0 : snd pe <> []) by (apply Hpe; now left).
       destruct (snd pe) as [|o os] eqn:E2; [congruence|].
-      destruct (Hall pe o (or_introl eq_refl)) as (Hw & _); [rewrite E2; now left|].
-      unfold wf_quad in Hw. repeat (apply andb_true_iff in Hw as [Hw _]). now apply wf_subj_not_qt.
+      destruct (Hall pe o (or_introl eq_refl)) as (Hs & _); [rewrite E2; now left|]. exact Hs.
     - intros pe Hin. split; [|split; [now apply Hpe|]].
       + assert (Hpe0 : snd pe <> []) by now apply Hpe.
         destruct (snd pe) as [|o os] eqn:E2; [congruence|].
-        destruct (Hall pe o Hin) as (Hw & _); [rewrite E2; now left|].
-        unfold wf_quad in Hw. apply andb_true_iff in Hw as [Hw _]. apply andb_true_iff in Hw as [Hw _].
-        apply andb_true_iff in Hw as [_ Hw]. now apply wf_iri_chars.
-      + intros o Ho. destruct (Hall pe o Hin Ho) as (Hw & Hd). split; [|assumption].
-        unfold wf_quad in Hw. apply andb_true_iff in Hw as [Hw _]. now apply andb_true_iff in Hw as [_ Hw]. }
+        destruct (Hall pe o Hin) as (_ & Hp & _); [rewrite E2; now left|]. exact Hp.
+      + intros o Ho. destruct (Hall pe o Hin Ho) as (_ & _ & Hf). exact Hf. }
   exists (flat_group g). split; [|exact Hflat].
-  unfold load_ttl, gen_ttl, gen_ttl_triples. fold ts. fold g.
+  unfold load_ttl, gen_ttl_triples. fold g.
   rewrite (flat_map_ext_in ttl_subject (fun e => body_entry e ++ [cLF])).
   2:{ intros e He. apply ttl_subject_text. now destruct (Hgood e He) as (_ & H & _). }
   rewrite lines_flat_map by (intros e He; now apply entry_line, Hgood).
   rewrite map_map. apply ttl_collect_ok. intros e He. now apply entry_line, Hgood.
+Qed.
+
+(* ---- bare terms ------------------------------------------------------------------------------------------------------------ *)
+Lemma bare_subj_ok : forall s, wf_subj s = true -> subj_ok s.
+Proof.
+  intros s H. destruct (wf_subj_not_qt s H) as [H1 H2]. destruct (iri_chars_resolve s H2) as [H3 _].
+  unfold subj_ok, nt_subj. rewrite H1. split; [now apply TT_angle|split; [assumption|]]. now exists (s ++ [cGT]).
+Qed.
+
+Lemma bare_obj_fact : forall s p o, wf_obj o = true -> dd_ttl_term o = false -> flush_ok s p o -> obj_fact s p o.
+Proof.
+  intros s p o H Hd Hf. pose proof (ttl_obj_tterm o H) as Ht.
+  split; [assumption|split; [now apply wf_obj_resolve|split; [|assumption]]].
+  apply (tterm_no_marker _ o); [assumption|now apply wf_obj_not_qt].
+Qed.
+
+Lemma ttl_roundtrip : forall db, wf_db db = true -> known_ttl db = false ->
+  exists l, load_ttl (gen_ttl db) = TOk l /\ same_set l (default_part db).
+Proof.
+  intros db Hwf Hk. unfold gen_ttl. apply ttl_roundtrip_gen.
+  - intros q Hq. unfold default_part in Hq. now apply filter_In in Hq.
+  - intros q Hq. unfold default_part in Hq. apply filter_In in Hq as [Hq Hd].
+    unfold wf_db in Hwf. rewrite forallb_forall in Hwf. pose proof (Hwf q Hq) as Hw.
+    unfold wf_quad in Hw. apply andb_true_iff in Hw as [Hw _]. apply andb_true_iff in Hw as [Hw Hwo].
+    apply andb_true_iff in Hw as [Hws Hwp].
+    assert (Hdd : dd_ttl_term (qd_o q) = false).
+    { destruct (dd_ttl_term (qd_o q)) eqn:E; [|reflexivity]. unfold known_ttl in Hk.
+      assert (known_dd_ttl db = true) by (apply existsb_exists; exists q; now rewrite Hd, E). congruence. }
+    split; [now apply bare_subj_ok|split; [now apply wf_iri_chars|]].
+    apply bare_obj_fact; try assumption. left.
+    destruct (wf_subj_not_qt _ Hws) as [-> _]. now rewrite (wf_obj_not_qt _ Hwo).
+Qed.
+
+(* ---- quoted-triple subjects / objects ---------------------------------------------------------------------------------------- *)
+Lemma contains_find_sub : forall p l, contains p l = false -> find_sub p l = None.
+Proof.
+  intros p. induction l as [|c l IH]; intro H.
+  - cbn in *. apply orb_false_iff in H as [H _]. now rewrite H.
+  - cbn [contains] in H. apply orb_false_iff in H as [H1 H2]. cbn [find_sub]. now rewrite H1, (IH H2).
+Qed.
+
+Lemma tquad_triple_ok : forall q, wf_tquad q = true -> known_ttl_q_quad q = false -> is_default (tq_den q) = true ->
+  triple_ok (tq_den q).
+Proof.
+  intros [[[s p] o] g] Hwf Hk Hdef. cbn [tq_den] in *. unfold is_default, qd_g in Hdef. cbn [snd] in Hdef.
+  destruct g; [discriminate|]. cbn [wf_tquad known_ttl_q_quad] in *.
+  apply andb_true_iff in Hwf as [Hwf _]. apply andb_true_iff in Hwf as [Hwf Hwo]. apply andb_true_iff in Hwf as [Hws Hwp].
+  apply orb_false_iff in Hk as [Hk Hk3]. apply orb_false_iff in Hk as [Hk1 Hk2].
+  unfold triple_ok, qd_s, qd_p, qd_o. cbn [fst snd].
+  assert (Hflush : flush_ok (term_str s) p (term_str o)).
+  { destruct (is_quoted s || is_quoted o) eqn:Eq.
+    - right. cbn [andb] in Hk2. unfold known_dd_quad, qd_s, qd_p, qd_o in Hk2. cbn [tq_den fst snd] in Hk2.
+      apply orb_false_iff in Hk2 as [Hk2 Hdo]. apply orb_false_iff in Hk2 as [Hds Hdp].
+      destruct (tsubj_facts s Hws Hds) as (_ & _ & E1). destruct (tobj_facts o Hwo Hdo) as (_ & _ & E3).
+      split; [assumption|split; [now apply ets_iri|assumption]].
+    - left. apply orb_false_iff in Eq as [Es Eo]. destruct s as [vs|ts]; [|discriminate]. destruct o as [vo|to]; [|discriminate].
+      cbn [term_str wf_tsubj wf_tobj] in *. destruct (wf_subj_not_qt _ Hws) as [-> _]. now rewrite (wf_obj_not_qt _ Hwo). }
+  split; [|split; [now apply wf_iri_chars|]].
+  - destruct s as [vs|ts]; cbn [term_str wf_tsubj] in *; [now apply bare_subj_ok|].
+    destruct (qsafe_qt_inv ts Hws) as (a & b & c & -> & Hs). unfold subj_ok, nt_subj. rewrite qrender_prefix.
+    split; [now apply TT_qt|split; [apply resolve_qt|]]. cbn [qrender]. now eexists.
+  - destruct o as [vo|to]; cbn [term_str wf_tobj is_quoted negb andb] in *.
+    + apply bare_obj_fact; assumption.
+    + destruct (qsafe_qt_inv to Hwo) as (a & b & c & -> & Hs).
+      unfold obj_fact, ttl_obj, nt_obj. rewrite qrender_prefix.
+      split; [now apply TT_qt|split; [apply resolve_qt|split; [|assumption]]].
+      unfold no_marker, ann_searched. replace (starts_with [cDQ] (qrender (QQt a b c))) with false by reflexivity.
+      now apply contains_find_sub.
+Qed.
+
+Lemma ttl_roundtrip_quoted : forall db, wf_tdb db = true -> known_ttl_q db = false ->
+  exists l, load_ttl (gen_ttl (tden db)) = TOk l /\ same_set l (default_part (tden db)).
+Proof.
+  intros db Hwf Hk. unfold gen_ttl. apply ttl_roundtrip_gen.
+  - intros q Hq. unfold default_part in Hq. now apply filter_In in Hq.
+  - intros q Hq. unfold default_part in Hq. apply filter_In in Hq as [Hq Hd].
+    unfold tden in Hq. apply in_map_iff in Hq as (tq & <- & Hin).
+    unfold wf_tdb in Hwf. rewrite forallb_forall in Hwf. apply tquad_triple_ok; [now apply Hwf| |assumption].
+    destruct (known_ttl_q_quad tq) eqn:E; [|reflexivity].
+    assert (known_ttl_q db = true) by (apply existsb_exists; now exists tq). congruence.
 Qed.
 
 (* ---- the Turtle known classes are real ------------------------------------------------------------------------------------ *)
